@@ -108,6 +108,16 @@ def run(tier, seed):
                     corpus.append(("der", enc.encode(t, v)))
                 except der.Unsupported:
                     pass
+    # values the default mode prints: object identifiers made of one-octet sub-identifiers (as many arcs as octets, plus
+    # one), long ones, relative OIDs, time strings, small and large integers, REAL, BOOLEAN, strings
+    for body in (b"\x2a", b"\x2a\x03\x04", b"\x2b\x06\x01\x04\x01\x02", b"\x2b" + b"\x01" * 30, b"\x2a\x86\x48\x86\xf7\x0d\x01\x01\x0b", b"\x7f" * 16):
+        corpus.append(("oid-values", b"\x06" + bytes([len(body)]) + body))
+        corpus.append(("oid-values", b"\x30" + bytes([len(body) + 4]) + b"\x06" + bytes([len(body)]) + body + b"\x05\x00"))
+        corpus.append(("oid-values", b"\x0d" + bytes([len(body)]) + body))
+    for tl in (b"\x02\x01\x7f", b"\x02\x09\x00" + b"\xff" * 8, b"\x02\x14" + b"\x7f" * 20, b"\x01\x01\xff", b"\x09\x03\x80\x00\x01", b"\x09\x01\x40",
+               b"\x18\x0f20370802121739Z", b"\x17\x0d490915144649Z", b"\x0c\x04h\xc3\xa9!", b"\x16\x00", b"\x03\x02\x07\x80", b"\x0a\x01\x05"):
+        corpus.append(("printed-values", tl))
+        corpus.append(("printed-values", b"\xa3" + bytes([len(tl)]) + tl))
     # deep but reasonable nesting
     for depth in (10, 50, 200):
         corpus.append(("nest%d" % depth, b"".join(b"\x30\x80" for _ in range(depth)) + b"\x05\x00" + b"\0\0" * depth))
@@ -115,7 +125,9 @@ def run(tier, seed):
     def roundtrip(item):
         kind, x = item
         rc, out, err, to = run_tool([unber, "-p", "-"], x)
-        rec = {"kind": kind, "x": x, "rc": rc, "err": err, "timeout": to, "out": out}
+        # the default (decoding, human-readable) mode walks the values themselves: OID arcs, strings, integers
+        rcd, outd, errd, tod = run_tool([unber, "-"], x)
+        rec = {"kind": kind, "x": x, "rc": rc, "err": err, "timeout": to, "out": out, "rcd": rcd, "errd": errd, "tod": tod}
         if rc == 0 and not to:
             rc2, out2, err2, to2 = run_tool([enber, "-"], out)
             rec.update(rc2=rc2, out2=out2, err2=err2, to2=to2)
@@ -131,6 +143,18 @@ def run(tier, seed):
         if r["timeout"]:
             chk.inconcl("unber timeout")
             continue
+        chk.evaluations += 1
+        if not r["tod"] and (san_report(r["errd"]) or r["rcd"] < 0):
+            k, fr = drv.classify_report(r["errd"])
+            chk.violation({"tool": "unber", "symptom": "crash", "report": k, "frame": fr, "input": kind, "mode": "default"},
+                          "unber (default mode, values printed) died on well-formed BER (%s): %s in %s" % (kind, k, fr),
+                          {"input_hex": x.hex()[:4000], "stderr": r["errd"][-2000:]})
+        elif not r["tod"] and r["rc"] == 0 and r["rcd"] != 0:
+            chk.violation({"tool": "unber", "symptom": "default-mode-rejects", "input": kind, "mode": "default"},
+                          "unber without -p exits %d on well-formed BER that unber -p accepts (%s): %s" % (r["rcd"], kind, r["errd"][:200]),
+                          {"input_hex": x.hex()[:4000], "stderr": r["errd"][-2000:]})
+        else:
+            chk.count("default_mode_ok")
         if san_report(r["err"]) or r["rc"] < 0:
             k, fr = drv.classify_report(r["err"])
             chk.violation({"tool": "unber", "symptom": "crash", "report": k, "frame": fr, "input": kind},
@@ -241,6 +265,11 @@ def run(tier, seed):
     def hostile_run(item):
         kind, x = item
         rc, out, err, to = run_tool([unber, "-p", "-"], x, timeout=120)
+        if not to and not san_report(err) and rc >= 0 and len(x) < 100000:
+            # the default mode on the same bytes: only a sanitizer report or a signal counts
+            rcd, outd, errd, tod = run_tool([unber, "-"], x, timeout=120)
+            if not tod and (san_report(errd) or rcd < 0):
+                return kind + "/default-mode", x, rcd, errd, tod
         return kind, x, rc, err, to
 
     with ThreadPoolExecutor(build.JOBS) as ex:
